@@ -48,3 +48,11 @@ package oc
 //@ func validateHoldTime
 //@   claims post
 //@   ensures result == nil <==> (t == 0.0 || (t >= 3.0 && t <= 65535.0))
+
+// from C08 "the OPEN sent reflects the configuration": what a peer group configures for ADD-PATH on one of its
+// address families is what its members get for that family - the group-level setting fills in only where the family
+// says nothing of its own
+//@ func NewPeerGroupFromConfigStruct
+//@   claims step
+//@   loop 0 step afiSafi != nil && f.AddPaths.Config.Receive ==> afiSafi.AddPaths.Config.Receive
+//@   loop 0 step afiSafi != nil && f.AddPaths.Config.SendMax != 0 ==> afiSafi.AddPaths.Config.SendMax == uint32(f.AddPaths.Config.SendMax)
